@@ -7,7 +7,10 @@ drawn position, writes after it, FURTHER close requests at drawn later positions
 event, close() of the whole server, the peer half-closing its sending side so that the endpoint reads EOF and closes itself - the
 other direction stays open, so everything written before must still arrive), loop iterations and peer reads at drawn moments (a stalling peer + small SO_SNDBUF / pipe size give real
 partial sends).  Every send()/os.write() call of the endpoint consults a fault script drawn from the tape: accept k of n bytes, raise
-EAGAIN/EWOULDBLOCK/EINTR/ENOBUFS (nothing sent), raise EPIPE/ECONNRESET (connection dead afterwards).
+EAGAIN/EWOULDBLOCK/EINTR/ENOBUFS (nothing sent), raise EPIPE/ECONNRESET.  Half of the fatal errnos kill the descriptor for good (every
+later call fails too, as on a really broken connection); the other half are the outcome of that ONE call only and later calls are
+accepted again (the quantifier's "every script of send() outcomes" contains [accept, EPIPE, accept]; SimSocket's ('err', errno, 'once')
+for sockets, the same in the fd_write wrapper for File).
 A rare configuration (1 run in 40 in quick, 1 in 10 in thorough) models an OS with a very large send buffer ("however the OS accepts
 it"): one send()/write() call may accept a whole payload however large (NET.greedy for sockets, the same loop in the fd_write wrapper
 for File; the remote end drains meanwhile), and ONE payload of 1 MiB + {1, 4096, 300000} bytes is written among small ones.
@@ -27,7 +30,11 @@ Oracle (ground truth = the bytes the OS accepted, recorded by the interposer; cl
     closed and no fatal send error happened, PRE has been accepted in full; without a fatal error PRE is accepted in full at the end;
   * "nothing is written after the endpoint has closed": no send()/write() call after close() of the descriptor;
   * "a fatal send error is always signalled by an error or disconnect event, the bytes accepted up to then being an exact prefix":
-    after an injected EPIPE/ECONNRESET an error / disconnect / disconnected / closed event is observed.
+    after EVERY injected EPIPE/ECONNRESET an error / disconnect / disconnected / closed event is dispatched (an `error` carrying a
+    transient errno does not count); at the FIRST such event after the first fatal errno ("up to then") everything the OS has accepted
+    must still be a prefix of PRE + (subsequence of POST): a payload accepted behind the lost one before anything was signalled breaks
+    it (key .../fatal-errno/not-a-prefix-at-signal).  What is accepted after the error has been signalled is not judged (the
+    statement is silent: e.g. a Client that fires `error` for ECONNRESET and goes on with the next payload is accepted).
   * Bounded liveness (stated bound): in the final phase faults are off and the peer drains everything before every loop iteration;
     PRE must be flushed, a requested close performed and a fatal error signalled within
         2 x (number of payloads written + partial sends and real refusals seen in that phase) + 10 loop iterations
@@ -70,13 +77,13 @@ LEVEL_NOTE = ('trusted: SimSocket.sim_sent / the fd_write wrapper as record of w
 RULE = ('each run = endpoint kind (+ for File: write-only pipe or read-write regular file with drawn initial content) + poller + buffer sizes + '
         'payload/close/step/peer-read script + per-call fault script from one tape; non-trivial = '
         'at least two non-empty payloads were written, bytes were accepted, and at least one of: partial send (real or injected), transient errno, '
-        'fatal errno, close requested while data was unflushed; distinct = digest of the log of writes, send outcomes, reads, events and closes')
-STATE_MEASURE = '(endpoint kind incl. file-rw, poller, outcome of a send call, unflushed payloads bucket at that call, close pending, injected-or-real, read side of a File at EOF)'
+        'fatal errno (descriptor dead afterwards, or that call only), close requested while data was unflushed; distinct = digest of the log of writes, send outcomes, reads, events and closes')
+STATE_MEASURE = '(endpoint kind incl. file-rw, poller, outcome of a send call incl. fatal errno once / for good and accepted-after-a-fatal-errno, unflushed payloads bucket at that call, close pending, injected-or-real, read side of a File at EOF)'
 REAL = ['circuits.net.sockets.TCPServer/UNIXServer (write/close/_on_write/_write/_close)', 'circuits.net.sockets.TCPClient/UNIXClient (same, connect)',
         'circuits.io.file.File on a real pipe (write-only) or on a real unlinked regular file opened r+b (read side reaches EOF during the run)',
         'circuits.core.pollers.Select/Poll/EPoll over real select/poll/epoll', 'circuits.core.manager.Manager.tick',
         'kernel AF_UNIX stream sockets and pipes (real partial sends)']
-STUBBED = ['socket -> SimSocket interposer (AF_UNIX behind simulated addresses, fault script per send)', 'circuits.io.file.fd_write -> wrapper around os.write '
+STUBBED = ['socket -> SimSocket interposer (AF_UNIX behind simulated addresses, fault script per send; a fatal errno either shuts the socket down for good or is raised once)', 'circuits.io.file.fd_write -> wrapper around os.write '
            'with the same fault script', 'circuits.io.file.fd_read -> pass-through to os.read that notes the moment of EOF (reach probes only)', 'select module -> non-blocking shim', 'time -> virtual clock', 'remote ends are harness Peer objects / the read end of the pipe']
 ASSUMPTIONS = ['writes after the close request may be written or dropped (statement silent); they must not displace or repeat earlier data',
                '"written before the close request" = write event fired before the close event on the same channel (FIFO dispatch)',
@@ -84,12 +91,17 @@ ASSUMPTIONS = ['writes after the close request may be written or dropped (statem
                'after it may be dropped; the peer never closes or resets the connection fully before the end of a run',
                'how many times close() is called on the descriptor is not judged (idempotent on Python sockets/files)',
                'an endpoint that keeps its writer registered after draining is not flagged',
+               '"the bytes accepted up to then" = up to the dispatch of the first error/disconnect(ed)/closed event after the fatal errno (weaker reading; '
+               'the stronger one - nothing at all may be accepted after a fatal errno - is not demanded): bytes accepted after that signal are not judged, '
+               'and a payload written after the close request may be skipped in that prefix as everywhere else',
+               'a fatal errno that is the outcome of one send() call only (the next call is accepted) is inside "every script of send() outcomes" although a '
+               'real kernel would keep failing',
                'ENOBUFS counts as a transient refusal for File as well (the statement lists it for every endpoint)',
                'end-of-file on the read side of a File opened in a + mode is not a close request (File itself keeps such a file open at EOF): data '
                'written before and after it is owed; where in the file the bytes land (reads and writes share the file offset) is not judged']
 PROBES = ['cfg:faults', 'cfg:fault-free', 'kind:tcpserver', 'kind:unixserver', 'kind:tcpclient', 'kind:unixclient', 'kind:file',
           'poller:Select', 'poller:Poll', 'poller:EPoll', 'partial-send-real', 'fault:short_write', 'fault:transient_send_error',
-          'fault:fatal_send_error', 'close-deferred', 'close-immediate', 'close-performed', 'write-after-close-request', 'write-after-closed',
+          'fault:fatal_send_error', 'fault:fatal_send_error_once', 'accepted-after-fatal', 'accepted-after-fatal-signalled', 'close-deferred', 'close-immediate', 'close-performed', 'write-after-close-request', 'write-after-closed',
           'payload-empty', 'payload-large', 'fatal-signalled', 'post-payload-written', 'flushed-in-full', 'repeated-close',
           'repeated-close-while-deferred', 'close-all-while-deferred', 'eof-while-close-deferred', 'eof-before-close', 'cfg:greedy-big',
           'payload-over-1MiB', 'payload-over-1MiB-accepted-in-one-send', 'cfg:file-text-payloads', 'kind:file-rw', 'file-rw-read', 'file-rw-eof',
@@ -221,10 +233,15 @@ class Script:
             st['end_call_error'](name, e, False)
             return ('err', e)
         name, e = ch.choice(FATAL, 'fatal-errno')
+        # "every script of send() outcomes": the fatal errno either kills the descriptor for good (every later call fails too, as on a real
+        # broken connection) or is the outcome of THIS call only and later calls are accepted again (scripted outcome [..., EPIPE, accept, ...])
+        once = ch.chance(1, 2, 'fatal-once')
         ctx.stat('fault:fatal_send_error')
         ctx.stat('fault:send_errno_' + name)
-        st['end_call_error'](name, e, True)
-        return ('err', e)
+        if once:
+            ctx.stat('fault:fatal_send_error_once')
+        st['end_call_error'](name, e, True, once)
+        return ('err', e, 'once') if once else ('err', e)
 
 
 def run_one(ctx):
@@ -295,6 +312,7 @@ def _run(ctx):
     pays = []            # (offset in PAT, size, 'pre'|'post') in write order
     st = dict(total=0, pre_total=0, close_req=False, post=[], states={(-1, 0)}, acc=0, call=None, last='none', ncalls=0,
               partials=0, refusals=0, fatal=None, signalled=False, closed_at=None, after_close=0, viol=False, dead=False,
+              nfatal=0, fatal_at=None, first_signalled=False, unsig_bad=None,
               sock=None, connected=False, deferred=False, faults_seen=0, late=0, close_dem=False, ncloses=0, eof=False, disp=0, call_disp=-1, big=st_big, nwrites=0,
               rd_eof=False, eof_pending_calls=None, full_calls=0,
               text=(TXT, TOFF) if text else None, tchar=0)
@@ -423,17 +441,24 @@ def _run(ctx):
         st['call_disp'] = st['disp']
         st['ncalls'] += 1
 
-    def end_call_error(name, e, fatal):
+    def end_call_error(name, e, fatal, once=False):
         c = st['call']
         c['done'] = True
         st['last'] = 'fatal-errno' if fatal else 'transient-errno'
         st['faults_seen'] += 1
-        ctx.log('send-err', c['n'], name)
-        ctx.trace('  send(%d bytes) -> %s injected (nothing accepted)%s' % (c['n'], name, '; connection is dead from now on' if fatal else ''))
-        ctx.state((skind, pname, name, min(depth(), 3), st['close_req'], st['rd_eof']))
-        if fatal and st['fatal'] is None:
-            st['fatal'] = name
-            st['dead'] = True
+        ctx.log('send-err', c['n'], name, int(once))
+        ctx.trace('  send(%d bytes) -> %s injected (nothing accepted)%s [stream offset %d]' % (c['n'], name, '' if not fatal else (
+            '; this call only, later calls may be accepted' if once else '; connection is dead from now on'), st['acc']))
+        ctx.state((skind, pname, name + ('-once' if once else ''), min(depth(), 3), st['close_req'], st['rd_eof']))
+        if fatal:
+            # "a fatal send error is always signalled": every one of them, by an event dispatched after it
+            st['nfatal'] += 1
+            st['signalled'] = False
+            if st['fatal'] is None:
+                st['fatal'] = name
+                st['fatal_at'] = st['acc']
+            if not once:
+                st['dead'] = True
 
     def on_accept(g):
         c = st['call']
@@ -457,8 +482,24 @@ def _run(ctx):
             st['last'] = outcome
         ctx.log('send', n, len(g))
         ctx.trace('  send(%d bytes) -> %d accepted%s [stream offset %d]' % (n, len(g), ' (%s partial send)' % how if how else '', st['acc']))
-        ctx.state((skind, pname, outcome + how, min(depth(), 3), st['close_req'], st['rd_eof']))
-        if g:
+        ctx.state((skind, pname, outcome + how + ('' if st['fatal'] is None else '-after-fatal'), min(depth(), 3), st['close_req'], st['rd_eof']))
+        if st['fatal'] is not None:
+            # the OS accepted something after a fatal send error (possible when the errno was the outcome of one call only).
+            # "... signalled by an error or disconnect event, the bytes accepted up to then being an exact prefix of what was written":
+            # judged at the first signal (see ev()); what is accepted after the error has been signalled is not judged (statement silent)
+            ctx.stat('accepted-after-fatal')
+            if st['first_signalled']:
+                ctx.stat('accepted-after-fatal-signalled')
+            elif g and st['unsig_bad'] is None:
+                new = advance(g)
+                if new:
+                    st['states'] = new
+                else:
+                    exp = min(offset_of(s) for s in st['states'])
+                    st['unsig_bad'] = ('send raised %s at stream offset %s and no error/disconnect event had been dispatched yet when the OS was handed '
+                                       '%d more byte(s) %s... at stream offset %d, which do not continue what was written (expected %s... = written '
+                                       'offset %d)' % (st['fatal'], st['fatal_at'], len(g), bytes(g[:8]).hex(), st['acc'], PAT[exp:exp + 8].hex(), exp))
+        elif g:
             new = advance(g)
             if not new:
                 fail(*classify(g, prev))
@@ -510,6 +551,12 @@ def _run(ctx):
         if st['fatal'] is not None and (name in ('disconnect', 'disconnected', 'closed') or
                                         (name == 'error' and info[0] not in ('EAGAIN', 'EINTR', 'ENOBUFS'))):
             st['signalled'] = True
+            if not st['first_signalled']:
+                st['first_signalled'] = True
+                # "... the bytes accepted up to then being an exact prefix of what was written": up to this, the first signal of the error
+                if st['unsig_bad'] is not None:
+                    fail('C11/%s/fatal-errno/not-a-prefix-at-signal' % grp, 'at the first event that signals the fatal send error (%s) the %d bytes '
+                         'the OS had accepted are not a prefix of what was written: %s' % (name, st['acc'], st['unsig_bad']))
 
     # ---- the endpoint under test
     class Exc(Component):
